@@ -193,3 +193,72 @@ pub fn ls_stats(a: &Args) {
     println!("{}", json!({"events": out.finish()}));
     std::process::exit(0);
 }
+
+
+/// `hv ls-stats-paths`: sessions in which statsPath changes while the server runs (announced, or only in the
+/// client's answers), with lint records applied before, between and after; after every shutdown each log is read.
+pub fn ls_stats_paths(a: &Args) {
+    let mut out = Out::create(a.req("out"));
+    let mut rng = Rng::new(a.num("seed", 1));
+    let base = std::env::temp_dir().join(format!("hv_lsxp_{}", std::process::id()));
+    let names = ["A", "B", "C"];
+    with_runtime(|| {
+        for n in 0..a.num("sessions", 10) {
+            let dir = base.join(format!("s{n}"));
+            std::fs::create_dir_all(&dir).unwrap();
+            let path_of = |k: usize| dir.join(format!("stats/{}/stats.txt", names[k]));
+            let mut cur = rng.below(3);
+            out.emit(&json!({"ev": "Reset", "paths": names, "path": names[cur]}));
+            let mut next_id = 1usize;
+            for inc in 0..rng.range(1, 3) {
+                if inc > 0 { out.emit(&json!({"ev": "Up"})); }
+                let mut ls = Ls::new(&dir);
+                ls.settings["harper-ls"]["statsPath"] = json!(path_of(cur).to_string_lossy());
+                ls.initialize();
+                let uri = "untitled:Untitled-1";
+                let h = ls.did_open(uri, "plaintext", "This is teh first an test.");
+                ls.run_to_completion(h, Duration::from_secs(20));
+                for _ in 0..rng.range(2, 7) {
+                    match rng.below(5) {
+                        0 | 1 | 2 => {
+                            // a lint record whose context names its id
+                            let kind = harper_stats::RecordKind::Lint { kind: harper_core::linting::LintKind::Spelling,
+                                context: vec![harper_core::FatStringToken { content: format!("marker{next_id}x"), kind: harper_core::TokenKind::Word(None) }] };
+                            ls.call("workspace/executeCommand", json!({"command": "HarperRecordLint", "arguments": [serde_json::to_string(&kind).unwrap()]}), true);
+                            out.emit(&json!({"ev": "Rec", "id": next_id}));
+                            next_id += 1;
+                        }
+                        3 => {
+                            // statsPath changes and the server is told
+                            cur = (cur + rng.range(1, 2)) % 3;
+                            ls.settings["harper-ls"]["statsPath"] = json!(path_of(cur).to_string_lossy());
+                            let h = ls.did_change_configuration();
+                            ls.run_to_completion(h, Duration::from_secs(20));
+                            out.emit(&json!({"ev": "Switch", "to": names[cur], "how": "announced"}));
+                        }
+                        _ => {
+                            // the same settings sent again, or an edit (configuration is pulled on edits too)
+                            if rng.chance(1, 2) { let h = ls.did_change_configuration(); ls.run_to_completion(h, Duration::from_secs(20)); }
+                            else { let h = ls.did_change(uri, 2, "This is teh first an test. More."); ls.run_to_completion(h, Duration::from_secs(20)); }
+                        }
+                    }
+                }
+                ls.call("shutdown", Value::Null, true);
+                let mut logs = serde_json::Map::new();
+                for k in 0..3 {
+                    let content = std::fs::read_to_string(path_of(k)).unwrap_or_default();
+                    // (records without a marker are not lint records of this driver)
+                    let ids: Vec<usize> = content.lines().filter(|l| l.contains("marker")).map(|l| {
+                        l.find("marker").and_then(|i| l[i + 6..].split('x').next().and_then(|d| d.parse::<usize>().ok())).unwrap_or(0)
+                    }).collect();
+                    logs.insert(names[k].to_string(), json!(ids));
+                }
+                out.emit(&json!({"ev": "Down", "logs": logs}));
+            }
+            let _ = std::fs::remove_dir_all(&dir);
+        }
+    });
+    let _ = std::fs::remove_dir_all(&base);
+    println!("{}", json!({"events": out.finish()}));
+    std::process::exit(0);
+}
